@@ -56,6 +56,8 @@ def random_cfg(rnd, unordered=None, maxrules=12, with_regex=True):
             m = b".".join(fs)
             r = GM.rule(m, rnd.choice([b"g_$1", b"g", b"${2}_$1", b"g$1$2", b"q_$3_$1"]), help=b"r%d" % i,
                         mmt=rnd.choice(TYPEF), labels=[(b"c1", b"$1-$2")] if rnd.random() < 0.5 else [])
+        if rnd.random() < 0.1:
+            r["action"] = b"drop"                     # a drop rule takes part in matching like any other rule
         rules.append(r)
     if unordered is None:
         unordered = rnd.random() < 0.3
